@@ -14,10 +14,13 @@ Generic additions of `T13` over `Translator2M` (nothing specific to menpo; a sub
   tuple(<generator>) / list(<generator>) / bare generator argument   ->  the list comprehension
   comprehensions with several generators                             ->  nested List.flatMap
   for i, (a, b) in ...  /  (a, b), c = ...                           ->  nested tuple targets (projections)
-  alias rules  `x = <expr mentioning y>`                             ->  x and y denote the SAME object: an in-place
-                                                                         statement on either rebinds both (needed for
-                                                                         `cropped = result[0] if return_transform else
-                                                                         result; cropped.pixels[...] = ..; return result`)
+  aliases: `x = y` between variables, the alias rules of the       ->  x and y denote the SAME object: an in-place
+  vocabulary (`x = y[0]`), `x = A if c else B` with alias arms            statement on either rebinds both; the groups live
+  (= `if c: x = A else: x = B`)                                           in the scope, so each arm of an `if` has its own
+  `helper(args)` / `x = helper(args)` for a straight-line function   ->  inlined at the call site (parameters substituted,
+  of the same menpo module without a rule                                 locals renamed): extracted guard helpers
+  `a:b` in a subscript / `isinstance(x, (A, B))` / `a != b`          ->  `slice(a, b)` / `isinstance(x, A) or isinstance(x, B)`
+                                                                         / `not a == b` when only `==` has a rule
   str constants                                                      ->  through `Rules13.strings` (e.g. "constant")
   true division `/`, floor division `//`, `%`                        ->  only through the rules' `binop`
 
@@ -43,8 +46,9 @@ GEN_TARGETS = ["MenpoModel.Generated.C13Src", "MenpoModel.GenProps.C13Src"]
 class Rules13(P.Rules2M):
     """Rules2M plus  alias: [(stmt pattern `$x = ...$y...`, "x", "y")]  and  strings: {python str constant: lean term}"""
 
-    def __init__(self, alias=(), strings=None, iter_="{it}", **kw):
+    def __init__(self, alias=(), strings=None, iter_="{it}", inline_from=("menpo",), **kw):
         P.Rules2M.__init__(self, **kw)
+        self.inline_from = tuple(inline_from)   # module prefixes whose functions may be inlined at their call sites
         self.alias = [(_pat(p, "stmt"), x, y) for p, x, y in alias]
         self.strings = dict(strings or {})
         if iter_ != "{it}":
@@ -52,10 +56,54 @@ class Rules13(P.Rules2M):
         self.iter_ = iter_          # what iterating over a value means (`for x in <it>`, comprehensions)
 
 
+ALIAS = "\0alias"      # scope key: tuple of frozensets of python names that denote the same object
+
+
+class _SliceNorm(ast.NodeTransformer):
+    """`a:b` inside a subscript  ->  `slice(a, b)`  (a python slice object is the same value either way)"""
+
+    def visit_Slice(self, node):
+        self.generic_visit(node)
+        if node.lower is not None and node.upper is not None and node.step is None:
+            return ast.copy_location(ast.Call(func=ast.Name(id="slice", ctx=ast.Load()),
+                                              args=[node.lower, node.upper], keywords=[]), node)
+        return node
+
+
+class _Subst(ast.NodeTransformer):
+    """rename / substitute the names of an inlined helper"""
+
+    def __init__(self, mapping):
+        self.mapping = mapping
+
+    def visit_Name(self, node):
+        if node.id in self.mapping:
+            new = self.mapping[node.id]
+            if isinstance(new, str):
+                return ast.copy_location(ast.Name(id=new, ctx=node.ctx), node)
+            if isinstance(node.ctx, ast.Load):
+                return new
+        return node
+
+
 class T13(P.Translator2M):
+    """Normalisations (a behaviour-preserving rewrite of the Python gives the same, or a definitionally equal, text):
+      * `a:b` in a subscript = `slice(a, b)`; `isinstance(x, (A, B))` = `isinstance(x, A) or isinstance(x, B)`;
+        `a != b` = `not a == b` when only the `==` form has a rule;
+      * `x = y` between variables, the alias rules of the vocabulary, and `x = A if c else B` with alias arms
+        (= `if c: x = A else: x = B`) make x and y names of ONE object: an in-place statement on either rebinds both;
+        the alias groups live in the scope, so the arms of an `if` keep their own;
+      * a statement `helper(args)` / `x = helper(args)` calling a function of the same menpo module for which the
+        vocabulary has no rule is INLINED at the call site (guard helpers extracted by a refactoring)."""
+
     def __init__(self, rules):
         P.Translator2M.__init__(self, rules)
-        self.alias_groups = []      # list of sets of python names denoting the same object
+        self._globals = {}
+        self._inl = 0
+
+    def function(self, fn, arg_names, ind=2, allow_unused=()):
+        self._globals = getattr(fn, "__globals__", {})
+        return P.Translator2M.function(self, fn, arg_names, ind=ind, allow_unused=allow_unused)
 
     # ------------------------------------------------------------------------------------------ expressions
     def expr(self, node, scope):
@@ -73,6 +121,16 @@ class T13(P.Translator2M):
         if (isinstance(node, ast.Call) and isinstance(node.func, ast.Name) and node.func.id in ("tuple", "list")
                 and len(node.args) == 1 and not node.keywords and isinstance(node.args[0], (ast.GeneratorExp, ast.ListComp))):
             return self.comprehension(node.args[0], scope, "list"), ""
+        if (isinstance(node, ast.Call) and isinstance(node.func, ast.Name) and node.func.id == "isinstance"
+                and len(node.args) == 2 and not node.keywords and isinstance(node.args[1], ast.Tuple) and node.args[1].elts):
+            alts = [ast.Call(func=node.func, args=[node.args[0], c], keywords=[]) for c in node.args[1].elts]
+            return self.expr(alts[0] if len(alts) == 1 else ast.BoolOp(op=ast.Or(), values=alts), scope)
+        if isinstance(node, ast.Compare) and len(node.ops) == 1 and isinstance(node.ops[0], ast.NotEq):
+            try:
+                return P.Translator2M.expr(self, node, scope)
+            except Untranslatable:
+                eq = ast.Compare(left=node.left, ops=[ast.Eq()], comparators=node.comparators)
+                return self.expr(ast.UnaryOp(op=ast.Not(), operand=eq), scope)
         return P.Translator2M.expr(self, node, scope)
 
     def bind_target(self, target, value, scope):
@@ -151,35 +209,150 @@ class T13(P.Translator2M):
 
     def loop(self, st, rest, scope, ind, ctx):
         st2 = ast.For(target=st.target, iter=self._wrap_iter(st.iter), body=st.body, orelse=st.orelse)
+        # the loop variables are rebound: they leave their alias groups
+        scope = self._unalias(scope, [n.id for n in ast.walk(st.target) if isinstance(n, ast.Name)])
         return P.Translator2M.loop(self, st2, rest, scope, ind, ctx)
 
-    # ------------------------------------------------------------------------------------------ statements
-    def _group(self, name):
-        for g in self.alias_groups:
+    # ------------------------------------------------------------------------------------------ aliases
+    @staticmethod
+    def _group(scope, name):
+        for g in scope.get(ALIAS, ()):
             if name in g:
                 return g
-        return {name}
+        return frozenset([name])
 
+    @staticmethod
+    def _unalias(scope, names):
+        if not scope.get(ALIAS):
+            return scope
+        sc = dict(scope)
+        sc[ALIAS] = tuple(g2 for g2 in (g - frozenset(names) for g in scope[ALIAS]) if len(g2) > 1)
+        return sc
+
+    def _alias_of(self, st, scope):
+        """(x, y) when the statement makes the variable x another name of the object the variable y names"""
+        if not (isinstance(st, ast.Assign) and len(st.targets) == 1 and isinstance(st.targets[0], ast.Name)):
+            return None
+        for pat, x, y in self.r.alias:
+            env = {}
+            if match(pat, st, env) and isinstance(env[x], ast.Name) and isinstance(env[y], ast.Name) \
+                    and env[y].id in scope:
+                return env[x].id, env[y].id
+        if isinstance(st.value, ast.Name) and st.value.id in scope and st.value.id != st.targets[0].id:
+            return st.targets[0].id, st.value.id
+        return None
+
+    # ------------------------------------------------------------------------------------------ inlined helpers
+    def _helper(self, call):
+        """the AST of a same-module menpo function called by name for which the vocabulary has no rule, or None"""
+        import types
+        if not (isinstance(call, ast.Call) and isinstance(call.func, ast.Name) and not call.keywords
+                and not any(isinstance(a, ast.Starred) for a in call.args)):
+            return None
+        fn = self._globals.get(call.func.id)
+        if not isinstance(fn, types.FunctionType) or \
+                not str(getattr(fn, "__module__", "")).startswith(getattr(self.r, "inline_from", ("menpo",))):
+            return None
+        try:
+            node, _src = P.source_ast(fn)
+        except Exception:
+            return None
+        a = node.args
+        if a.vararg or a.kwarg or a.kwonlyargs or a.posonlyargs or len(a.args) != len(call.args):
+            return None
+        return node
+
+    def _inline(self, call, node, result_name):
+        """statements equivalent to `result_name = helper(args)` (or to the bare call when result_name is None)"""
+        body = [st for st in node.body
+                if not (isinstance(st, ast.Expr) and isinstance(st.value, ast.Constant) and isinstance(st.value.value, str))]
+        returns = [n for st in body for n in ast.walk(st) if isinstance(n, ast.Return)]
+        tail = body[-1] if body and isinstance(body[-1], ast.Return) else None
+        if any(r is not tail for r in returns) or any(isinstance(n, (ast.FunctionDef, ast.Lambda, ast.Global, ast.Nonlocal))
+                                                       for st in body for n in ast.walk(st)):
+            raise Untranslatable("helper `%s` is not straight-line (return inside a branch / nested def)" % node.name)
+        if result_name is not None and (tail is None or tail.value is None):
+            raise Untranslatable("helper `%s` returns nothing but its value is used" % node.name)
+        self._inl += 1
+        params = [x.arg for x in node.args.args]
+        assigned = set()
+        for st in body:
+            for n in ast.walk(st):
+                if isinstance(n, ast.Name) and isinstance(n.ctx, ast.Store):
+                    assigned.add(n.id)
+        mapping, pre = {}, []
+        for p_, arg in zip(params, call.args):
+            if p_ in assigned or not isinstance(arg, (ast.Name, ast.Constant)):
+                new = "%s_h%d" % (p_, self._inl)
+                mapping[p_] = new
+                pre.append(ast.Assign(targets=[ast.Name(id=new, ctx=ast.Store())], value=arg))
+            else:
+                mapping[p_] = arg
+        for n in assigned:
+            if n not in mapping:
+                mapping[n] = "%s_h%d" % (n, self._inl)
+        import copy
+        sub = _Subst(mapping)
+        out = list(pre)
+        for st in (body[:-1] if tail is not None else body):
+            out.append(ast.fix_missing_locations(sub.visit(copy.deepcopy(st))))
+        if result_name is not None:
+            val = sub.visit(copy.deepcopy(tail.value))
+            out.append(ast.fix_missing_locations(ast.Assign(targets=[ast.Name(id=result_name, ctx=ast.Store())], value=val)))
+        return out
+
+    def _has_stmt_rule(self, st):
+        return any(match(pat, st, {}) for pat, _r, _t in self.r.stmt)
+
+    def _has_expr_rule(self, node):
+        return any(match(pat, node, {}) for pat, _t, _f in self.r.expr)
+
+    # ------------------------------------------------------------------------------------------ statements
     def _block1(self, stmts, scope, ind, ctx):
         pad = "  " * ind
         if stmts:
-            st, rest = stmts[0], stmts[1:]
-            for pat, x, y in self.r.alias:
-                env = {}
-                if match(pat, st, env):
-                    tx, ty = env[x], env[y]
-                    if not (isinstance(tx, ast.Name) and isinstance(ty, ast.Name) and ty.id in scope):
-                        raise Untranslatable("alias statement on non-variables: `%s`" % ast.unparse(st))
-                    g = self._group(ty.id) | {tx.id}
-                    self.alias_groups = [h for h in self.alias_groups if not (h & g)] + [g]
-                    sc = dict(scope)
-                    sc[tx.id] = scope[ty.id]
-                    return self.block(rest, sc, ind, ctx)
-            if isinstance(st, ast.Assign) and len(st.targets) == 1:
-                for n in ast.walk(st.targets[0]):
-                    if isinstance(n, ast.Name) and isinstance(n.ctx, ast.Store):
-                        self.alias_groups = [g - {n.id} for g in self.alias_groups]
-                if isinstance(st.targets[0], (ast.Tuple, ast.List)):
+            import copy
+            st = ast.fix_missing_locations(_SliceNorm().visit(copy.deepcopy(stmts[0])))
+            rest = stmts[1:]
+            stmts = [st] + list(rest)
+            # ---- calls of helpers the vocabulary has no word for: inlined (depth-limited)
+            if self._inl < 40 and not self._has_stmt_rule(st):
+                if isinstance(st, ast.Expr) and not self._has_expr_rule(st.value):
+                    h = self._helper(st.value)
+                    if h is not None:
+                        return self.block(self._inline(st.value, h, None) + list(rest), scope, ind, ctx)
+                if (isinstance(st, ast.Assign) and len(st.targets) == 1 and isinstance(st.targets[0], ast.Name)
+                        and not self._has_expr_rule(st.value)):
+                    h = self._helper(st.value)
+                    if h is not None:
+                        return self.block(self._inline(st.value, h, st.targets[0].id) + list(rest), scope, ind, ctx)
+            # ---- `x = A if c else B` whose arms are aliases  =  if c: x = A else: x = B
+            if (isinstance(st, ast.Assign) and len(st.targets) == 1 and isinstance(st.targets[0], ast.Name)
+                    and isinstance(st.value, ast.IfExp) and not self._has_stmt_rule(st)):
+                arms = [ast.Assign(targets=st.targets, value=v) for v in (st.value.body, st.value.orelse)]
+                whole = self._alias_of(st, scope)
+                if whole is None and all(self._alias_of(a, scope) for a in arms):
+                    node = ast.fix_missing_locations(ast.If(test=st.value.test, body=[arms[0]], orelse=[arms[1]]))
+                    return self.block([node] + list(rest), scope, ind, ctx)
+            # ---- alias statements
+            al = self._alias_of(st, scope)
+            if al is not None and not self._has_stmt_rule(st):
+                if ctx.brk is not None:
+                    raise Untranslatable("alias statement inside a loop body: `%s`" % ast.unparse(st))
+                x, y = al
+                sc = self._unalias(scope, [x])
+                g = self._group(sc, y) | {x}
+                sc = dict(sc)
+                sc[ALIAS] = tuple(h for h in sc.get(ALIAS, ()) if not (h & g)) + (frozenset(g),)
+                sc[x] = scope[y]
+                return self.block(list(rest), sc, ind, ctx)
+            # ---- a plain (re-)assignment takes its targets out of their alias groups
+            if isinstance(st, (ast.Assign, ast.AugAssign)) and not self._has_stmt_rule(st):
+                tg = st.targets[0] if isinstance(st, ast.Assign) and len(st.targets) == 1 else getattr(st, "target", None)
+                if tg is not None:
+                    scope = self._unalias(scope, [n.id for n in ast.walk(tg)
+                                                  if isinstance(n, ast.Name) and isinstance(n.ctx, ast.Store)])
+                if isinstance(st, ast.Assign) and len(st.targets) == 1 and isinstance(st.targets[0], (ast.Tuple, ast.List)):
                     e, flag = self.expr(st.value, scope)
                     if flag == "bind":
                         if ctx.brk is not None:
@@ -188,26 +361,26 @@ class T13(P.Translator2M):
                         tmp = self.fresh("t", sc)
                         sc["\0tmp" + tmp] = tmp
                         lines, sc = self.bind_target(st.targets[0], tmp, sc)
-                        k = "".join("  " * (ind + 1) + l + "\n" for l in lines) + self.block(rest, sc, ind + 1, ctx)
+                        k = "".join("  " * (ind + 1) + l + "\n" for l in lines) + self.block(list(rest), sc, ind + 1, ctx)
                         return pad + self.r.bind.format(m=e, x=tmp, k=k)
-            # an in-place statement on an aliased variable rebinds every name of its group
+            # ---- an in-place statement on an aliased variable rebinds every name of its group
             flags = getattr(self.r, "stmt_flag", [])
             for i, (pat, recv, tmpl) in enumerate(self.r.stmt):
                 env = {}
-                if match(pat, st, env) and isinstance(env[recv], ast.Name) and len(self._group(env[recv].id)) > 1:
+                if match(pat, st, env) and isinstance(env[recv], ast.Name) and len(self._group(scope, env[recv].id)) > 1:
+                    if ctx.brk is not None:
+                        raise Untranslatable("in-place statement on an aliased variable inside a loop body: `%s`" % ast.unparse(st))
                     self.used_rules.add(("s", i))
                     target = env[recv]
                     val = tmpl.format(**{k: self.pure(v, scope) for k, v in env.items()})
                     new = self.fresh(target.id, scope)
                     sc = dict(scope)
-                    for n in self._group(target.id):
+                    for n in self._group(scope, target.id):
                         if n in sc:
                             sc[n] = new
                     if i < len(flags) and flags[i] == "bind":
-                        if ctx.brk is not None:
-                            raise Untranslatable("monadic in-place statement inside a loop body: `%s`" % ast.unparse(st))
-                        return pad + self.r.bind.format(m=val, x=new, k=self.block(rest, sc, ind + 1, ctx))
-                    return "%slet %s := %s\n%s" % (pad, new, val, self.block(rest, sc, ind, ctx))
+                        return pad + self.r.bind.format(m=val, x=new, k=self.block(list(rest), sc, ind + 1, ctx))
+                    return "%slet %s := %s\n%s" % (pad, new, val, self.block(list(rest), sc, ind, ctx))
         return P.Translator2M._block1(self, stmts, scope, ind, ctx)
 
 
@@ -333,7 +506,8 @@ def items():
                             ("self.warp_to_shape($s, Translation($t), order=0, warp_landmarks=True, return_transform=$r)",
                              "(Img.warpTranslate0 zero pix lms {s} {t})"),
                             ] + VEC + IMAGE,
-                      alias=[("$x = $y[0] if return_transform else $y", "x", "y")],
+                      # with return_transform the warp answers (image, transform): the image is its item 0
+                      alias=[("$x = $y[0]", "x", "y")],
                       stmt=[("$c.pixels[...] = self.pixels[(slice(None),) + $b]", "c",
                              "Img.assignAll {c} (Img.block zero pix {b})", "bind")]
                       )).function(
@@ -412,7 +586,7 @@ def items():
                             ("$v[offset_index]", "(Np.viewAt {v} offsetindex)"),
                             ("offset[0]", "(Np.toPt offset)"), ("np.round($x)", "(Np.roundPt {x})")] + PATCH,
                       end="{pixels}", iter_="(Np.iter {it})",
-                      stmt=[("$X[:, $a:$b, $c:$d] = $v", "X", "(Np.assignWindow dflt {X} ({a}, {b}) ({c}, {d}) {v})")])).function(
+                      stmt=[("$X[:, $r, $c] = $v", "X", "(Np.assignWindow dflt {X} {r} {c} {v})")])).function(
             PT.set_patches, {"patches": "patches", "pixels": "pixels", "patch_centers": "patchcenters", "offset": "offset",
                              "offset_index": "offsetindex"}, ind=1))
     # ---- Image.extract_patches / extract_patches_around_landmarks / set_patches / set_patches_around_landmarks
